@@ -316,6 +316,88 @@ def run_rule(case):
     return Outcome(None, True, labels)
 
 
+# ------------------------------------------------------------------------------------------ cross sections
+CONVERGED = dict(qeps1=1e-14, qeps2=1e-16, eps=1e-26, niter=2000)
+_SPECIAL_ANGLES = [math.pi / 2, math.pi, 3 * math.pi / 2, -math.pi / 2, -math.pi / 6, -1.0, 2 * math.pi - 0.3, 7.0, math.pi / 4, 3 * math.pi / 4]
+
+
+def strat_xsec(tier):
+    return st.fixed_dictionaries({
+        "o": gen.optics(True), "mem": _cluster(4, xhi=2.5),
+        "pl": st.fixed_dictionaries({"fx": gen.rounded(0, 1, 3), "fy": gen.rounded(0, 1, 3), "kgap": gen.logu(40.0, 400.0)}),
+        "meth": st.sampled_from([0, 1]),
+        "angle": st.one_of(st.floats(-2 * math.pi, 4 * math.pi), st.sampled_from(_SPECIAL_ANGLES)),
+        # the asymmetry parameter is a numerical integral over all directions (scipy dblquad, ~10-100 s per call);
+        # most cases replace the integrator by a fixed product rule (Gauss-Legendre in cos(theta) x trapezoid in phi),
+        # some 2-sphere cases keep the library's own
+        "own_integrator": st.sampled_from([False] * 9 + [True]),
+    })
+
+
+def _product_rule(nth, nph):
+    x, w = np.polynomial.legendre.leggauss(nth)
+    th_ = np.arccos(x)
+    ph_ = np.arange(nph) * 2 * math.pi / nph
+
+    def integrate(integrand):
+        # the library's integrands carry the factor sin(theta): integrate over cos(theta) instead
+        tot = 0.0
+        for t, wi in zip(th_, w):
+            stt = math.sin(t)
+            tot += wi / stt * sum(integrand(t, p) for p in ph_)
+        return tot * 2 * math.pi / nph
+    return integrate
+
+
+def run_xsec(case):
+    from holopy.scattering import calc_cross_sections, Multisphere, Spheres, Sphere
+    import holopy.scattering.theory.multisphere as msmod
+    o = case["o"]
+    sc = {"kind": "cluster", "mem": case["mem"], "pl": case["pl"], "th": {"t": "ms", "meth": case["meth"], "radial": False, "tight": True}}
+    s, _, info = gen.build_scene(sc, o, {"kind": "points", "pts": [[0.0, 0.0, 0.0]]})
+    k = len(s.scatterers)
+    th = Multisphere(meth=case["meth"], **CONVERGED)
+    a = case["angle"]
+    R = np.array([[math.cos(a), -math.sin(a), 0], [math.sin(a), math.cos(a), 0], [0, 0, 1.0]])
+    s2 = Spheres([Sphere(n=m.n, r=m.r, center=tuple(R @ np.array(m.center))) for m in s.scatterers], warn=False)
+    p1 = np.array([o["pol"][0], o["pol"][1], 0.0])
+    p2 = R @ p1
+    own = bool(case["own_integrator"]) and k == 2
+    oblique = abs(p1[0] * p1[1]) > 1e-3 * (p1 @ p1) or abs(p2[0] * p2[1]) > 1e-3 * (p2 @ p2)
+    labels = ["k%d" % k, "meth%d" % case["meth"], "own_integrator" if own else "product_rule",
+              "pol_y_negative_after_rotation" if p2[1] < -1e-3 * math.hypot(p2[0], p2[1]) and abs(p2[0]) > 1e-3 * math.hypot(p2[0], p2[1]) else "pol_other",
+              "oblique_polarization" if oblique else "axis_polarization"]
+    saved = msmod._integrate4pi
+    if not own:
+        cs_ = np.array(info["centers"], dtype=float)
+        kR = 2 * math.pi * o["nm"] / o["wl"] * (np.linalg.norm(cs_ - cs_.mean(0), axis=1) + np.array(info["radii"], dtype=float)).max()
+        lmax_guess = int(kR + 4.05 * kR ** (1 / 3.0) + 2)
+        msmod._integrate4pi = _product_rule(lmax_guess + 10, 2 * lmax_guess + 16)
+    try:
+        try:
+            x1 = np.asarray(calc_cross_sections(s, o["nm"], o["wl"], gen.polarization_argument(o), theory=th).values, dtype=float)
+            x2 = np.asarray(calc_cross_sections(s2, o["nm"], o["wl"], (p2[0], p2[1]), theory=th).values, dtype=float)
+        except Exception as e:
+            if type(e).__name__ == "MultisphereFailure":
+                return Outcome(None, False, labels + ["MultisphereFailure"], skipped=True)
+            raise
+    finally:
+        msmod._integrate4pi = saved
+    names = ["scattering", "absorption", "extinction", "asymmetry"]
+    ref = np.array([abs(x1[0]), abs(x1[2]), abs(x1[2]), 1.0])    # absorption is a difference: judged against extinction
+    tol = np.array([1e-6, 1e-6, 1e-6, 1e-5 if not own else 1e-4])
+    err = np.abs(x2 - x1) / ref
+    if not np.all(np.isfinite(x1)) or not np.all(np.isfinite(x2)):
+        return Outcome(failure("cross_sections_not_finite", "%d-sphere cluster: cross sections %r / rotated %r" % (k, x1.tolist(), x2.tolist()), meth=case["meth"]), True, labels)
+    bad = [i for i in range(4) if err[i] > tol[i] * TOLX]
+    if bad:
+        i = bad[0]
+        return Outcome(failure("cross_section_rotation", "%d-sphere cluster: %s cross section changes from %.10g to %.10g (rel %.3g) when cluster and "
+                               "polarization are rotated together by %.6g rad about the optical axis" % (k, names[i], x1[i], x2[i], err[i], a),
+                               quantity=names[i], meth=case["meth"]), True, labels)
+    return Outcome(None, oblique and k >= 2, labels, metrics={"xsec_rotation_" + names[i]: float(err[i]) for i in range(4)})
+
+
 SUBCHECKS = [
     Sub("order_and_rotation", strat_perm, run_perm, 480, 8000,
         "2-6 non-overlapping spheres (x_i in [0.3,3.5], m in [0.7,2.0], weakly absorbing allowed) inside the compiled "
@@ -323,6 +405,13 @@ SUBCHECKS = [
         "case), 6 random orders for k=5-6; or rotation of the whole configuration, polarization and detector points about z; "
         "non-trivial = k>=3 with a non-identity order (or a generic rotation angle)",
         tolerances={"order_rel": 1e-4, "rotation_rel": 3e-4}, budget_quick=100),
+    Sub("cross_section_rotation", strat_xsec, run_xsec, 160, 3000,
+        "2-4 sphere clusters (x_i in [0.3,2.5]), both interaction solvers with converged options; cluster and polarization "
+        "rotated together about the optical axis by generic angles in [-2pi, 4pi] and special ones (multiples of pi/4, negative): "
+        "calc_cross_sections must return the same four numbers (scattering, absorption, extinction rel 1e-6; asymmetry 1e-5); "
+        "the asymmetry integral uses a fixed product rule in most cases (the library's dblquad takes minutes) and the "
+        "library's own integrator in some 2-sphere cases; non-trivial = polarization oblique to the axes before or after",
+        tolerances={"cross_sections_rel": 1e-6, "asymmetry_abs": 1e-5}, budget_quick=60),
     Sub("default_theory_rule", strat_rule, run_rule, 3000, 60000,
         "scatterers of every class; Spheres with the largest pair separation placed at 30 r_max (1+delta), delta in "
         "{0, +-1e-9, +-1e-6, +-1e-3, +-0.5, uniform}, layered member, single member, missing centre; reference predicate "
